@@ -440,6 +440,61 @@ def refused_extract(mt, g, lex):
             return True
 
 
+_EVENT = [0]
+
+
+def process_event():
+    """Part of a process history: ONE other thing that happened in the process before the call under test - rotating
+    over calls the library must refuse (and that are abandoned at some depth inside it), calls on OTHER trees with
+    other option values, and objects that are left unfinished.  None of them touches the objects under test; whatever
+    they leave behind in the process must not reach the next call."""
+    from trees import transform, grammar, treeoutput, treeinput, transitions, treeanalysis
+    _EVENT[0] += 1
+    k = _EVENT[0] % 14
+    wide = model.MT(7, model.mk_tokens(4, words=['``', 'der', ',', 'x'], pos=['$(', 'PRELS', '$,', 'NN']),
+                    ('VROOT', '--', (('S', '--', (1, ('NP', 'HD', (2,)), 3, 4)),)))
+    disc = model.MT(8, model.mk_tokens(3), ('VROOT', '--', (('VP', 'HD', (1, 3)), 2)))
+    with quiet():
+        try:
+            if k == 0:          # refused deep inside the navigation functions: a token without a number
+                t = build(disc)
+                del raw_leaves(t)[1].data['num']
+                transform.root_attach(t)
+            elif k == 1:
+                refused_extract(disc, {}, {})
+            elif k == 2:        # refused: a wide node without head marks, with an option
+                transform.binarize(build(wide), bare_bin_labels=True)
+            elif k == 3:
+                transform.mark_heads_by_rules(build(wide), mark_heads_preset='nosuch')
+            elif k == 4:        # refused: crossing branches in bracket output
+                treeoutput.brackets(build(disc), io.StringIO())
+            elif k == 5:        # legal, on another tree, with an option value
+                transform.punctuation_symetrify(transform.root_attach(build(wide)), relc='PRELS')
+            elif k == 6:
+                transform.binarize(transform.negra_mark_heads(build(wide)), bare_bin_labels=True)
+            elif k == 7:        # refused: a terminal file that does not exist
+                transform.insert_terminals(build(wide), terminalfile='/nonexistent/terminals.txt')
+            elif k == 8:        # refused somewhere inside binarization: a malformed linearization
+                grammar.binarize({('S', 'A', 'B', 'C'): {(((0, 0), (1, 0), (2,)),): {('S1', 'ROOT1'): 1}}},
+                                 reordering=grammar.reordering_optimal)
+            elif k == 9:        # refused: transitions of a tree that is not binary
+                transitions.topdown(transform.negra_mark_heads(build(wide)))
+            elif k == 10:       # an analysis task that is never finished
+                task = treeanalysis.GapDegree()
+                task.run(build(disc))
+            elif k == 11:       # legal, other option values
+                transform.punctuation_verylow(transform.root_attach(build(wide)))
+                transform.ptb_delete_traces(build(wide), keep='*T*', keepcoindex=True)
+            elif k == 12:       # refused: boyd_split without head marks
+                transform.boyd_split(transform.root_attach(build(disc)))
+            else:               # legal: label options on another tree
+                T.get_label(transform.negra_mark_heads(build(wide)).children[0], gf=True, gf_separator='#', mark_heads_marking=True)
+                T.parse_label('NP#SB-1', gf_separator='#')
+            _EVENT[1:] = [None]
+        except Exception as e:
+            _EVENT[1:] = [e]
+
+
 def reader_history():
     """Part of a process history: some other corpus was read earlier with reader options of its own (gf_split with
     the separator '#', from each of the three readers in turn).  Whatever that leaves behind in the process must
@@ -462,3 +517,4 @@ def reader_history():
         for _ in [treeinput.export, treeinput.tigerxml, treeinput.brackets][k](_SEP_HISTORY[0][k], 'utf-8', quiet=True,
                                                                                    gf_split=True, gf_separator='#'):
             pass
+    process_event()
